@@ -143,9 +143,18 @@ func (f *FeeInfo) Validate() error {
 		return fmt.Errorf("unknown fee type %T", feeType)
 	}
 
-	_, err := sdk.AccAddressFromBech32(f.Recipient)
+	recipient, err := sdk.AccAddressFromBech32(f.Recipient)
+	if err != nil {
+		return err
+	}
 
-	return err
+	// A fee paid to the orbiter account itself is a self-send which leaves the funds on the
+	// module account.
+	if recipient.Equals(core.ModuleAddress) {
+		return errors.New("fee recipient cannot be the orbiter module account")
+	}
+
+	return nil
 }
 
 func validateAmount(amt *FeeInfo_Amount) error {
